@@ -123,7 +123,7 @@ theorem inv_finishContainer (ev : Evalr Ï) (st : St Ï) ne bb (h : st.scopes â‰
     Inv st (finishContainer ev st ne bb) := by
   unfold finishContainer
   dsimp only
-  have h0 : Inv st (if bb.isSome then updateElement ev st { ne with contentBBox := bb } else st) := by
+  have h0 : Inv st (if bb.isSome || notRenderedInPlace ne.name then updateElement ev st { ne with contentBBox := bb } else st) := by
     split
     Â· exact inv_updateElement ev st _ h
     Â· exact Inv.refl st h
